@@ -1,6 +1,8 @@
 import WpModel.Model.Wire
 import WpModel.Model.Floats
 import WpModel.Model.FloatFlow
+import WpModel.Model.FloatCheck
+import WpModel.Model.FloatTrace
 
 namespace Wp.Drive.Floats
 open Wp Wp.Floats
@@ -68,17 +70,48 @@ def showShape (s : Shape) : String :=
   "(" ++ showRat s.x ++ " " ++ showRat s.y ++ " " ++ showRat s.mw ++ " " ++ showRat s.mh ++ " " ++
     (match s.side with | .left => "left" | .right => "right") ++ ")"
 
-/-- `(w (<abox>…))` -/
-def lineSpec? : Sx → Option LineSpec
-  | .list [w, .list fs] => do pure ⟨← w.rat?, ← allSome abox? fs⟩
+/-- `(F x y mw mh side)` | `(B l0 r0 x y w h)` -/
+def event? : Sx → Option Event
+  | .list [.atom "F", x, y, mw, mh, sd] => do pure (.float ⟨← x.rat?, ← y.rat?, ← mw.rat?, ← mh.rat?, ← side? sd⟩)
+  | .list [.atom "B", l0, r0, x, y, w, h] => do
+    pure (.box (← l0.rat?) (← r0.rat?) (← x.rat?) (← y.rat?) (← w.rat?) (← h.rat?))
   | _ => none
 
-/-- `(float <abox>)` | `(para clear fs (<line>…) mt mb)` | `(bfc clear width h ml mr mt mb)` |
+/-- `auto` | `(px q)` | `(pct q)` -/
+def dim? : Sx → Option Absolute.Dim
+  | .atom "auto" => some .auto
+  | .list [.atom "px", q] => q.rat?.map .px
+  | .list [.atom "pct", q] => q.rat?.map .pct
+  | _ => none
+
+/-- `(side clear width height ml mr mt mb pl pr pt pb bl br bt bb minW maxW minC maxC hWide hNarrow)` -/
+def floatSpec? : Sx → Option FloatSpec
+  | .list [sd, c, w, h, ml, mr, mt, mb, pl, pr, pt, pb, bl, br, bt, bb, mn, mx, mc, xc, hw, hn] => do
+    pure ⟨← floatV? sd, ← clear? c, ← dim? w, ← h.len?, ← dim? ml, ← dim? mr, ← dim? mt, ← dim? mb,
+          ← dim? pl, ← dim? pr, ← dim? pt, ← dim? pb, ← bl.rat?, ← br.rat?, ← bt.rat?, ← bb.rat?,
+          ← dim? mn, ← dim? mx, ← mc.rat?, ← xc.rat?, ← hw.rat?, ← hn.rat?⟩
+  | _ => none
+
+/-- `(w0 w h (<abox>…))` -/
+def lineSpec? : Sx → Option LineSpec
+  | .list [w0, w, h, .list fs] => do pure ⟨← w0.rat?, ← w.rat?, ← h.rat?, ← allSome abox? fs⟩
+  | _ => none
+
+def align? : Sx → Option Align
+  | .atom "start" => some .start
+  | .atom "end" => some .«end»
+  | .atom "left" => some .left
+  | .atom "right" => some .right
+  | .atom "center" => some .center
+  | _ => none
+
+/-- `(float <abox>)` | `(para clear fs align (<line>…) mt mb)` | `(bfc clear width h ml mr mt mb)` |
 `(block clear h mt mb)` | `(img clear w h ml mr)` | `(table clear w h ml mr)` -/
 def item? : Sx → Option Item
   | .list [.atom "float", b] => (abox? b).map .float
-  | .list [.atom "para", c, fs, .list ls, mt, mb] => do
-    pure (.para (← clear? c) (← fs.rat?) (← allSome lineSpec? ls) (← mt.rat?) (← mb.rat?))
+  | .list [.atom "floatspec", f] => (floatSpec? f).map .floatSpec
+  | .list [.atom "para", c, fs, al, .list ls, mt, mb] => do
+    pure (.para (← clear? c) (← fs.rat?) (← align? al) (← allSome lineSpec? ls) (← mt.rat?) (← mb.rat?))
   | .list [.atom "bfc", c, w, h, ml, mr, mt, mb] => do
     pure (.bfc (← clear? c) (← w.len?) (← h.rat?) (← ml.rat?) (← mr.rat?) (← mt.rat?) (← mb.rat?))
   | .list [.atom "block", c, h, mt, mb] => do pure (.block (← clear? c) (← h.rat?) (← mt.rat?) (← mb.rat?))
@@ -94,8 +127,9 @@ def showRect (r : Rat × Rat × Rat × Rat) : String :=
 def showPlaced : Placed → String
   | .float x y mw mh => showRect (x, y, mw, mh)
   | .para lines => "(P" ++ String.join (lines.map fun l =>
-      (if l.floats.isEmpty then " (" ++ showRat l.x ++ " " ++ showRat l.y ++ " " ++ showRat l.w
-       else " (- " ++ showRat l.y ++ " -") ++
+      (if l.floats.isEmpty then
+         " (" ++ showRat l.x ++ " " ++ showRat l.y ++ " " ++ showRat l.w ++ " " ++ showRat l.h
+       else " (- " ++ showRat l.y ++ " - -") ++
         String.join (l.floats.map fun r => " " ++ showRect r) ++ ")") ++ ")"
   | .bfc x y w h => "(B " ++ " ".intercalate ([x, y, w, h].map showRat) ++ ")"
   | .block y => "(K " ++ showRat y ++ ")"
@@ -135,6 +169,16 @@ def handle (cmd : String) (args : List Sx) : Option String :=
     let cb ← cb? cb
     pure (showErr (fun r => showRat r.1.px ++ " " ++ showRat r.1.py ++ " (" ++
       " ".intercalate (r.2.map showShape) ++ ")") (floatPlace ss b cb))
+  | "avoidinfo", [ss, b, cb, outer] => do
+    pure (avoidBranch (← shapes? ss) (← abox? b) (← cb? cb) (← outer.bool?))
+  | "checkbfc", [.list evs] => do
+    let evs ← allSome event? evs
+    pure (match checkEvents [] 0 evs with
+      | none => "ok"
+      | some i => "fail " ++ toString i)
+  | "floatwidth", [mn, mx, mc, xc, cbw] => do
+    let mx ← (match mx with | .atom "inf" => some none | x => x.rat?.map some)
+    pure (showRat (floatWidthAuto (← mn.rat?) mx (← mc.rat?) (← xc.rat?) (← cbw.rat?)))
   | "flow", [cb, y0, .list items] => do
     let cb ← cb? cb
     let y0 ← y0.rat?
